@@ -394,3 +394,32 @@ Example C01_HBH_nonvacuous : wf ex_hbh /\ bytes_ok (arr ex_hbh) /\ HBH_IsValid e
   HBH_Parse ex_hbh = Ok VU /\ HBH_Data ex_hbh = Ok (VR 2 14).
 Proof. exact HBH_valid_ex. Qed.
 Print Assumptions C01_HBH_nonvacuous.
+
+(* ---- round 7 ---- *)
+(* Ether at full strength on its natural domain: every frame with a payload (len <> header length), and every frame
+   without spare capacity, satisfies the C01 statement with no excluded class (and the C02 statement, see
+   C02_Ether_full_on_payload_frames); the recorded class is exactly the complement (C01_Ether_known_exact) *)
+Theorem C01_Ether_full_on_payload_frames : forall v, wf v -> bytes_ok (arr v) -> Ether_IsValid v = Ok true ->
+  (len v <> eth_hlen v \/ cap v = len v) -> getters_ok [] Ether_getters v.
+Proof. intros v W B H D. exact (proj1 (Ether_full_on_payload_frames v W B H D)). Qed.
+Print Assumptions C01_Ether_full_on_payload_frames.
+Example C01_Ether_payload_frame_nonvacuous : (len ex_ether <> eth_hlen ex_ether \/ cap ex_ether = len ex_ether) /\ Ether_IsValid ex_ether = Ok true.
+Proof. exact Ether_payload_frame_ex. Qed.
+Print Assumptions C01_Ether_payload_frame_nonvacuous.
+
+(* LLDP.GetPDU(t), the TLV accessor with an argument (case kind "ga"): for every requested type and every view it
+   neither panics nor spins and what it returns lies inside the view *)
+Theorem C01_LLDP_GetPDU_safe : forall ty v, wf v -> bytes_ok (arr v) -> getter_ok v (LLDP_GetPDU ty).
+Proof. exact LLDP_GetPDU_safe. Qed.
+Print Assumptions C01_LLDP_GetPDU_safe.
+Example C01_LLDP_GetPDU_nonvacuous :
+  LLDP_GetPDU 3 ex_lldp = Ok (VR 16 2) /\ LLDP_GetPDU 9 ex_lldp = Ok VNil /\ LLDP_GetPDU 2 ex_lldp = Ok (VR 11 3).
+Proof. exact LLDP_GetPDU_ex. Qed.
+Print Assumptions C01_LLDP_GetPDU_nonvacuous.
+
+(* the API census lists the dispatch answers with (kind "api": every exported method of every view type as
+   Name/arity) contain, as their zero-argument entries, IsValid and exactly the names of the getter tables the
+   theorems above quantify over, and the spec tables have the same names *)
+Example C01_api_census_consistent : forallb api_ok PV.Model.ViewsDispatch.vtypes = true.
+Proof. exact api_consistent. Qed.
+Print Assumptions C01_api_census_consistent.
